@@ -7,14 +7,18 @@ import GoldModel.Lemmas.ProgRoundTrip
 
 * statements — assignment `lhs = e` (also `-=`, `+=`, `:=`; `lhs` whatever `ExprSpec.lhsb` admits: for
   `Ex` an identifier), expression
-  statement, `return e`, `exit`/`break`/`continue`, `var x : T [absolute y]`, `uses a, b`, `const c = lit`, and the blocks
+  statement, `return e`, `exit`/`break`/`continue`, `var x : T [absolute y]`, `type aName : T`, `uses a, b`,
+  `const c = lit`, and the blocks
   `if e … [elseif e …]* [else …] endif`, `while e … endwhile`, `loop … endloop`,
   `for i = e to|downto e [step e] … endfor`, `foreach e … endfor`, `repeat … until e`, whose bodies
   are statement LISTS of any length nested to any depth;
 * declarations — `proc Name[#Event] [( [const|var|inout] p : T, … )] [modifiers] … endproc`,
   `func Name [(…)] return T [modifiers] … endfunc` (modifiers `private`, `protected`, `final`, `override`; with
   `forward` or `external "lib"` the method has NO body), `const c = literal [multiLang]`,
-  `[memory] f : T [private|…]* [absolute x]`, `class aName [(aParent)]`, `module aName`, `uses a, b, …`;
+  `[memory] f : T [private|…]* [absolute x]`, `class aName [(aParent)]`, `module aName`, `uses a, b, …`,
+  `type aName : T`;
+* types `T` (parameters, variables, fields, type declarations) — `Name`, `Name(n)`, `refTo|listOf Name [inverse x]`,
+  `lit to lit`, `[Name]`, `.Name`, `array|sequence [Name | lit to lit] [[…]] of Name`, `instanceOf Name`;
 * programs — lists of declarations.
 
 `toks` prints to tokens (any positions, any spellings), `tree` is the intended tree — kinds, names,
@@ -130,8 +134,8 @@ private def num (v : String) (l c : Nat) : Ex := .atom (tk Kind.NumericLiteral v
 class aFoo (aBar)
 const cMax = 10 multiLang
 count : Int private absolute other
-proc Run(const n : Int, inout m : Int) private override
-  var i : Int
+proc Run(const n : Int, inout m : refTo aBar) private override
+  var i : array [1 to 9] of Int
   for i = 1 to n step 2
     if i < m
       m = m - i
@@ -159,6 +163,7 @@ proc Btn#Click() forward
 func Beep return Int external 'user32.Beep'
 module aMod
 uses aLib, bLib
+type tName : CString(40)
 ```
 -/
 private def sample : Prog Ex :=
@@ -166,16 +171,20 @@ private def sample : Prog Ex :=
       (some (tk Kind.OBracket "(" 0 11, tk Kind.Identifier "aBar" 0 12, tk Kind.CBracket ")" 0 16)),
     .const (tk Kind.Const "const" 1 0) (tk Kind.Identifier "cMax" 1 6) (tk Kind.Equals "=" 1 11) (tk Kind.NumericLiteral "10" 1 13)
       (some (tk Kind.MultiLang "multiLang" 1 16)),
-    .field none (tk Kind.Identifier "count" 2 0) (tk Kind.Colon ":" 2 6) (tk Kind.Identifier "Int" 2 8)
+    .field none (tk Kind.Identifier "count" 2 0) (tk Kind.Colon ":" 2 6) (.basic (tk Kind.Identifier "Int" 2 8))
       [tk Kind.Private "private" 2 12] (some (tk Kind.Absolute "absolute" 2 20, tk Kind.Identifier "other" 2 29)),
     .proc (tk Kind.Proc "proc" 3 0) (.plain (tk Kind.Identifier "Run" 3 5))
       (some (.cons (tk Kind.OBracket "(" 3 8)
-        ⟨some (tk Kind.Const "const" 3 9), tk Kind.Identifier "n" 3 15, tk Kind.Colon ":" 3 17, tk Kind.Identifier "Int" 3 19⟩
+        ⟨some (tk Kind.Const "const" 3 9), tk Kind.Identifier "n" 3 15, tk Kind.Colon ":" 3 17, .basic (tk Kind.Identifier "Int" 3 19)⟩
         [(tk Kind.Comma "," 3 22,
-          ⟨some (tk Kind.InOut "inout" 3 24), tk Kind.Identifier "m" 3 30, tk Kind.Colon ":" 3 32, tk Kind.Identifier "Int" 3 34⟩)]
-        (tk Kind.CBracket ")" 3 37)))
-      [.plain (tk Kind.Private "private" 3 39), .plain (tk Kind.Override "override" 3 47)]
-      (some ([ .lvar (tk Kind.Var "var" 4 2) (tk Kind.Identifier "i" 4 6) (tk Kind.Colon ":" 4 8) (tk Kind.Identifier "Int" 4 10) none,
+          ⟨some (tk Kind.InOut "inout" 3 24), tk Kind.Identifier "m" 3 30, tk Kind.Colon ":" 3 32,
+            .ref (tk Kind.RefTo "refTo" 3 34) (tk Kind.Identifier "aBar" 3 40) none⟩)]
+        (tk Kind.CBracket ")" 3 44)))
+      [.plain (tk Kind.Private "private" 3 46), .plain (tk Kind.Override "override" 3 54)]
+      (some ([ .lvar (tk Kind.Var "var" 4 2) (tk Kind.Identifier "i" 4 6) (tk Kind.Colon ":" 4 8)
+                 (.array (tk Kind.Array "array" 4 10) ⟨tk Kind.OSqrBracket "[" 4 16, .range (tk Kind.NumericLiteral "1" 4 17)
+                    (tk Kind.To "to" 4 19) (tk Kind.NumericLiteral "9" 4 22), tk Kind.CSqrBracket "]" 4 23⟩ none
+                    (tk Kind.Of "of" 4 25) (tk Kind.Identifier "Int" 4 28)) none,
         .forS (tk Kind.For "for" 5 2) (tk Kind.Identifier "i" 5 6) (tk Kind.Equals "=" 5 8) (num "1" 5 10)
           (tk Kind.To "to" 5 12) (idt "n" 5 15) (some (tk Kind.Step "step" 5 17, num "2" 5 22))
           [ .ifS (tk Kind.If "if" 6 4) (.bin (idt "i" 6 7) (tk Kind.LessThan "<" 6 9) (idt "m" 6 11))
@@ -206,7 +215,10 @@ private def sample : Prog Ex :=
       (tk Kind.Identifier "Int" 29 17)
       [.ext (tk Kind.External "external" 29 21) (tk Kind.StringLiteral "user32.Beep" 29 30)] none,
     .module (tk Kind.Module "module" 30 0) (tk Kind.Identifier "aMod" 30 7),
-    .uses (tk Kind.Uses "uses" 31 0) (tk Kind.Identifier "aLib" 31 5) [(tk Kind.Comma "," 31 9, tk Kind.Identifier "bLib" 31 11)] ]
+    .uses (tk Kind.Uses "uses" 31 0) (tk Kind.Identifier "aLib" 31 5) [(tk Kind.Comma "," 31 9, tk Kind.Identifier "bLib" 31 11)],
+    .typeD (tk Kind.Type "type" 32 0) (tk Kind.Identifier "tName" 32 5) (tk Kind.Colon ":" 32 11)
+      (.sized (tk Kind.Identifier "CString" 32 13) (tk Kind.OBracket "(" 32 20) (tk Kind.NumericLiteral "40" 32 21)
+        (tk Kind.CBracket ")" 32 23)) ]
 
 /-- the sample is well formed, so the theorem applies to it … -/
 private theorem sample_wf : Prog.WF exSpec sample := (prog_wfb_iff sample).mp (by decide +kernel)
